@@ -40,14 +40,20 @@ Generics(f) ==
 \* where-predicates: [kind \in {"type", "life"}, on]
 WherePreds(f) ==
   (IF f.lwhere = "where" THEN << [kind |-> "life", on |-> "'b"] >> ELSE << >>)
-  \o (IF f.bound = "where" THEN SelectSeq([i \in DOMAIN f.params |-> IF f.params[i] = "generic" THEN [kind |-> "type", on |-> f.gname \o ToString(i)] ELSE [kind |-> "none", on |-> ""]],
-                                          LAMBDA g : g.kind # "none") ELSE << >>)
+  \o (IF f.bound \in {"where", "whereassoc"}
+      THEN SelectSeq([i \in DOMAIN f.params |-> IF f.params[i] = "generic" THEN [kind |-> "type", on |-> f.gname \o ToString(i)] ELSE [kind |-> "none", on |-> ""]],
+                     LAMBDA g : g.kind # "none") ELSE << >>)
+  \* "whereassoc": additionally a predicate on an associated type of the parameter (`U1::Out: Send`), which needs `U1: HasOut` to be known
+  \o (IF f.bound = "whereassoc"
+      THEN SelectSeq([i \in DOMAIN f.params |-> IF f.params[i] = "generic" THEN [kind |-> "assoc", on |-> f.gname \o ToString(i)] ELSE [kind |-> "none", on |-> ""]],
+                     LAMBDA g : g.kind # "none") ELSE << >>)
 
 \* ---- stage: collect trait generics (one function's contribution to the shared accumulator)
 LiftedParams(f) == SelectSeq(Generics(f), LAMBDA g : g.kind \in {"type", "const"} /\ ~(g.kind = "type" /\ g.name = "D"))
-\* named-generic deps: only non-path predicates are lifted (i.e. none of the type predicates here); every other deps kind
-\* lifts all TYPE predicates.  Lifetime predicates stay on the method (since a "fix:" commit; they used to be lifted).
-LiftedWhere(f) == IF f.deps.kind = "generic" THEN << >> ELSE SelectSeq(WherePreds(f), LAMBDA w : w.kind = "type")
+\* every TYPE predicate is lifted, whatever the dependency kind (since a "fix:" commit: with a named dependency parameter only
+\* non-path predicates used to be lifted, without the predicates they build on).  Lifetime predicates stay on the method
+\* (since another "fix:" commit; they used to be lifted).
+LiftedWhere(f) == SelectSeq(WherePreds(f), LAMBDA w : w.kind \in {"type", "assoc"})
 \* ---- stage: convert the signature: the method keeps its lifetimes only (type AND const parameters are the trait's)
 MethodParams(f) == SelectSeq(Generics(f), LAMBDA g : g.kind = "life")
 MethodWhere(f) == WherePreds(f)
